@@ -146,3 +146,24 @@ def record_calls(mod, rng, n):
         rows.append({"kind": "bytes", "bytes": list(b), "nib": list(nb.bytes_to_nibbles(b)),
                      "bits": list(bn.encode_to_bin(b)), "bitsback": list(bn.decode_from_bin(bn.encode_to_bin(b)))})
     return rows
+
+
+def record_inputs(mod, rows):
+    """the real results for the inputs of the given recorded rows"""
+    im = importlib.import_module
+    nb, bn = im("trie.utils.nibbles"), im("trie.utils.binaries")
+    for r in rows:
+        if r["kind"] == "nib":
+            nib = tuple(r["nib"])
+            yield {"kind": "nib", "nib": list(nib), "hpT": list(nb.encode_nibbles(nib + (16,))),
+                   "hpF": list(nb.encode_nibbles(nib)),
+                   "dT": list(nb.decode_nibbles(nb.encode_nibbles(nib + (16,)))),
+                   "dF": list(nb.decode_nibbles(nb.encode_nibbles(nib)))}
+        elif r["kind"] == "bits":
+            bits = bytes(r["bits"])
+            kp = bn.encode_from_bin_keypath(bits)
+            yield {"kind": "bits", "bits": list(bits), "keypath": list(kp), "back": list(bn.decode_to_bin_keypath(kp))}
+        else:
+            b = bytes(r["bytes"])
+            yield {"kind": "bytes", "bytes": list(b), "nib": list(nb.bytes_to_nibbles(b)),
+                   "bits": list(bn.encode_to_bin(b)), "bitsback": list(bn.decode_from_bin(bn.encode_to_bin(b)))}
